@@ -717,7 +717,7 @@ class History(Stream):
         self.cp = Components()
 
     def gen(self, rng, tier):
-        n_cases = 150 if tier == 'quick' else 1500
+        n_cases = 150 if tier == 'quick' else 800
         ax = self.sz.axes()
         cat = [e for e in self.cp.catalog()]
         with_ifs = [e for e in cat if 'Interfaces' in e]
